@@ -19,6 +19,13 @@ pub fn normalize_encoded_attr(attr: &str) -> String {
     crate::services::verifier::verif_normalize_encoded_attr(attr)
 }
 
+/// `W3CPresentation::validate` (context and type checks), as the W3C verifier calls it first.
+pub fn w3c_presentation_shape_ok(
+    presentation: &crate::data_types::w3c::presentation::W3CPresentation,
+) -> bool {
+    presentation.validate().is_ok()
+}
+
 pub fn subject_encode(subject: &CredentialSubject) -> crate::Result<CredentialValues> {
     subject.encode()
 }
